@@ -191,6 +191,11 @@ pub fn suite_self(ctx: &mut Ctx) {
             ("neg", "o", 1), ("abs", "m", 1), ("min", "m", 2), ("max", "m", 2), ("round", "m", 1),
         ];
         dataflow(ctx, ty, &ops, 12, 30, &lat);
+        for i in 0..150 {
+            let a = lat[ctx.rng.gen_range(0..lat.len())];
+            let b = gen::partner(ty.n, ty.es, a, &lat, &mut ctx.rng);
+            ctx.call(ty, ["add", "mul", "sub", "div"][i % 4], "m", &[a, b]);
+        }
     }
 }
 
